@@ -38,6 +38,16 @@ PROPS = {
         trusted_base=[SDK_TRUST, "big.Rat parsing is validated by correspondence (the model receives numerator/denominator)"],
         assumptions=["limit setting unchanged within a window for the window-total clause (governance may lower a limit below current usage)"],
     ),
+    "C19": dict(
+        lean_modules=["PalomaModel.Props.C19"],
+        harness_test="TestC19",
+        n_quick=2000, n_thorough=20000, thorough_seeds=8,
+        spec_ops=["select", "count"],
+        rule="random insert/remove/select/count histories on the real PriorityNonceMempool[int64] with mock sdk.Tx values whose single message type URL is drawn from the five priority classes "
+             "(so NewDefaultTxPriority is under test), unique (sender, seq) among pending, priority ties across senders, repeated selects; distinct = distinct canonical history; non-trivial = a select over >= 2 pending txs",
+        trusted_base=["huandu/skiplist is abstracted as a list kept sorted by the code's comparator (validated by correspondence)"],
+        assumptions=["(sender, sequence) unique among pending transactions and priorities above MinInt64 (the property's own precondition `Admissible`)"],
+    ),
 }
 
 LEVEL_TEXT = ("Lean 4 theorems (all inputs / histories / fault points, no bounds) about an executable model of the code; the model is tied to the Go code on "
